@@ -28,6 +28,14 @@ def run(res, pool, tier, seed):
                      constants=consts(seed, 2, 4), timeout=7200, batch=50),
                 dict(module="MC_Pure.tla", tag="sim6", invariants=["Emit"], constants=consts(seed, 6, 1), timeout=3600, batch=50,
                      simulate="num=8000", depth=7, tlc_seed=seed + 5, workers=8, spec="SpecSim")]
+    # every relative position of two operands (the universes of C01 / C02): the whole query battery on one pair, snapshots in between
+    flat = ["Point", "Line", "HalfLine", "Segment", "Plane"]
+    jobs.append(dict(module="MC_Flat.tla", tag="pairpure-flat", invariants=["Emit"], timeout=1800,
+                     constants=dict(B=1, KA=set(flat), KB=set(flat), SEED=seed % 1000, NSHARD=4 if tier == "quick" else 1, NBORING=12 if tier == "quick" else 2)))
+    from props.c02 import POLYH, POLYG
+    jobs.append(dict(module="MC_FlatBody.tla", tag="pairpure-body", invariants=["Emit"], timeout=3600,
+                     constants=dict(GENK=set(), NGEN=1, S=2, BODIES=set(POLYH + POLYG), KF=set(flat), SEED=(seed + 3) % 1000,
+                                    NSHARD=600 if tier == "quick" else 30, NXCHECK=1000)))
     engine.run_jobs(res, jobs, pool)
     import traces
     traces.run_for(res, ["sessions"], {"C20"}, seed=seed + 12, nsessions=400 if tier == "quick" else 4000)
@@ -117,7 +125,67 @@ def run_query(op, a, b, la, lb, exp, pose):
     return "unknown op"
 
 
+PAIR_QUERIES = ("intersection", "intersection_swapped", "intersection_method", "in", "in_swapped", "distance", "angle", "parallel",
+                "orthogonal", "eq", "hash", "repr", "measure")
+
+
+def pair_purity(case, rng):
+    """one operand pair of the C01 / C02 universes: every query on it in a random order; the complete snapshot of both operands is
+    compared before and after every call, and the intersection is asked again at the end (the answer must not depend on what ran before)"""
+    a, b, s = case["a"], case["b"], case.get("s", 1)
+    out = {"mism": [], "skipped": {}, "calls": 0, "nontrivial": True, "cls": "pair|%s|%s" % (a["k"], b["k"])}
+    pose = common.poses_for((a, b), rng, 1, s)[rng.randint(0, 1)]
+    num = common.num_for(rng, pose, (a, b))
+    built, exc = call(lambda: (build(a, pose, num), build(b, pose, num)))
+    if exc is not None:
+        return out                      # constructions are judged by C09 / C17
+    la, lb = built
+    cfg0 = (G.get_eps(), G.get_sig_figures())
+
+    def bad(clause, why, q):
+        m, skip = common.mismatch(clause, {"op": q, "kinds": [a["k"], b["k"]], "what": clause.split(".", 1)[1]}, why,
+                                  {"query": q}, {"k": "-"}, pose, [a, b])
+        if m:
+            out["mism"].append(m)
+        else:
+            out["skipped"][skip] = out["skipped"].get(skip, 0) + 1
+
+    before = (snap(la), snap(lb))
+    first, _ = call(G.intersection, la, lb)
+    first = observe(first)
+    if (snap(la), snap(lb)) != before:
+        bad("C20.pure", "the first intersection changed an observable attribute of an operand", "intersection")
+    qs = list(PAIR_QUERIES)
+    rng.shuffle(qs)
+    for q in qs:
+        before = (snap(la), snap(lb))
+        f = {"intersection": lambda: G.intersection(la, lb), "intersection_swapped": lambda: G.intersection(lb, la),
+             "intersection_method": lambda: la.intersection(lb), "in": lambda: la in lb, "in_swapped": lambda: lb in la,
+             "distance": lambda: G.distance(la, lb), "angle": lambda: G.angle(la, lb), "parallel": lambda: G.parallel(la, lb),
+             "orthogonal": lambda: G.orthogonal(la, lb), "eq": lambda: la == lb, "hash": lambda: (hash(la), hash(lb)),
+             "repr": lambda: (repr(la), repr(lb)), "measure": lambda: [call(getattr(x, m)) for x in (la, lb) for m in ("length", "area", "volume") if hasattr(x, m)]}[q]
+        call(f)                         # unsupported pairs raise: that is fine here, the operands must still be untouched
+        out["calls"] += 1
+        after = (snap(la), snap(lb))
+        if after != before:
+            which = [k for k, (x, y) in zip((a["k"], b["k"]), zip(before, after)) if x != y]
+            bad("C20.pure", "%s changed an observable attribute of its operand(s) %s" % (q, which), q)
+            break
+        if (G.get_eps(), G.get_sig_figures()) != cfg0:
+            bad("C20.pure_config", "%s changed the global tolerance" % q, q)
+            G.set_eps()
+            break
+    last, _ = call(G.intersection, la, lb)
+    if R(observe(last), case["exp"], pose) is None and R(first, case["exp"], pose) is not None or R(observe(last), case["exp"], pose) is not None and R(first, case["exp"], pose) is None:
+        bad("C20.order_independent", "intersection answers differently before and after the other queries", "intersection")
+    if not out["mism"]:
+        out["sample"] = {"a": a, "b": b}
+    return out
+
+
 def replay_case(case, tag, rng, tier):
+    if tag.startswith("pairpure"):
+        return pair_purity(case, rng)
     hist, s = case["hist"], case["s"]
     acts = [e["act"] for e in hist]
     out = {"mism": [], "skipped": {}, "calls": 0, "nontrivial": True, "cls": "-".join(a[:2] for a in acts)}
